@@ -882,11 +882,17 @@ def merge_paths(normal, lenient=False):
     frames = [fr for fr, _ in normal]
     states = [st2 for _, st2 in normal]
     npfx = _common_prefix([st2.pc for st2 in states])
-    conds = [z3.And(*st2.pc[npfx:]) if len(st2.pc) > npfx else z3.BoolVal(True) for st2 in states]
+    tails = [st2.pc[npfx:] for st2 in states]
+    common_ids = set(t.get_id() for t in tails[0])
+    for tl in tails[1:]:
+        common_ids &= set(t.get_id() for t in tl)
+    common = [t for t in tails[0] if t.get_id() in common_ids]      # side conditions assumed on every branch
+    tails = [[t for t in tl if t.get_id() not in common_ids] for tl in tails]
+    conds = [z3.And(*tl) if len(tl) > 1 else (tl[0] if tl else z3.BoolVal(True)) for tl in tails]
     base = states[0]
     m = base.fork()
     m._lenient_join = lenient
-    m.pc = list(base.pc[:npfx]) + [z3.simplify(z3.Or(*conds))]
+    m.pc = list(base.pc[:npfx]) + common + [z3.simplify(z3.Or(*conds))]
     m.decisions = {k: v for k, v in base.decisions.items() if all(k in s2.decisions and s2.decisions[k][0] == v[0] for s2 in states[1:])}
     m.fresh = max(s2.fresh for s2 in states)
     ev = []
